@@ -13,6 +13,7 @@ def pureE : X.Expr → Bool
   | .num _ | .bool _ | .name _ => true
   | .un _ e => pureE e
   | .bin _ l r => pureE l && pureE r
+  | .sub _ i => pureE i
   | _ => false
 
 mutual
@@ -29,7 +30,7 @@ def annotate (ρ : String → Option Word) : X.Expr → AExpr
        | some a, some b => some (foldBin op a b)
        | _, _ => none)
   | .str bs => .str bs
-  | .sub n _ => .sub n (.num 0 none)            -- outside the fragment
+  | .sub n i => .sub n (annotate ρ i)
   | .call f args => .call (-1) f (annotateL ρ args)
   | .syscall _ _ => .call (-1) "" []            -- outside the fragment
 def annotateL (ρ : String → Option Word) : List X.Expr → List AExpr
@@ -153,6 +154,32 @@ theorem eval_name (fuel : Nat) (xc : X.Ctx) (n : String) (σ : X.St) (r : Val) (
     obtain ⟨h1, h2⟩ := liftE_ok _ _ _ _ h
     subst h2
     exact ⟨rfl, h1⟩
+
+/-- A subscript: the index, then the array the name denotes, then the element. -/
+theorem eval_sub (fuel : Nat) (xc : X.Ctx) (n : String) (i : X.Expr) (σ : X.St) (r : Val) (σ' : X.St)
+    (h : X.eval (fuel + 1) xc (.sub n i) σ = .ok r σ') :
+    ∃ st iv ar w, X.tick xc σ = some st ∧ X.eval fuel xc i st = .ok (.int iv) σ' ∧
+      X.arrayOf xc σ' n = .ok ar ∧ X.arrGet σ' ar iv = .ok w ∧ r = .int w := by
+  unfold X.eval at h
+  cases ht : X.tick xc σ with
+  | none => rw [ht] at h; simp at h
+  | some st =>
+    rw [ht] at h
+    simp only at h
+    obtain ⟨iv, s1, h1, h2⟩ := bind_ok_inv _ _ _ _ h
+    obtain ⟨h3, h4⟩ := liftE_ok _ _ _ _ h2
+    subst h4
+    cases ha : X.arrayOf xc σ' n with
+    | error w => rw [ha] at h3; simp [bind, Except.bind] at h3
+    | ok ar =>
+      rw [ha] at h3
+      simp only [bind, Except.bind] at h3
+      cases hg : X.arrGet σ' ar iv with
+      | error w => rw [hg] at h3; simp [bind, Except.bind] at h3
+      | ok w =>
+        rw [hg] at h3
+        simp only [bind, Except.bind, pure, Except.pure, Except.ok.injEq] at h3
+        exact ⟨st, iv, ar, w, rfl, asInt_ok _ _ _ _ h1, rfl, hg, h3.symm⟩
 
 theorem eval_neg (fuel : Nat) (xc : X.Ctx) (a : X.Expr) (σ : X.St) (r : Val) (σ' : X.St)
     (h : X.eval (fuel + 1) xc (.un .neg a) σ = .ok r σ') :
@@ -307,7 +334,10 @@ theorem eval_pure (xc : X.Ctx) : ∀ (fuel : Nat) (e : X.Expr) (σ : X.St) (v : 
           · subst hs; exact (tick_same _ _ _ h1).trans (ih _ _ _ _ hp.1 h2)
           · exact ((tick_same _ _ _ h1).trans (ih _ _ _ _ hp.1 h2)).trans (ih _ _ _ _ hp.2 h5)
     | str bs => simp [pureE] at hp
-    | sub n i => simp [pureE] at hp
+    | sub n i =>
+      simp only [pureE] at hp
+      obtain ⟨st, iv, ar, w, h1, h2, _⟩ := eval_sub _ _ _ _ _ _ _ h
+      exact (tick_same _ _ _ h1).trans (ih _ _ _ _ hp h2)
     | call f args => simp [pureE] at hp
     | syscall id args => simp [pureE] at hp
 
@@ -429,7 +459,7 @@ theorem annot_sound (ρ : String → Option Word) (xc : X.Ctx) : ∀ (fuel : Nat
                 simp only [foldBin]
                 rcases isBool_cases b hbb with hb | hb <;> simp [hb]
     | str bs => simp [pureE] at hp
-    | sub n i => simp [pureE] at hp
+    | sub n i => simp [annotate] at hc
     | call f args => simp [pureE] at hp
     | syscall id args => simp [pureE] at hp
 
